@@ -1069,3 +1069,17 @@ Proof.
     unfold conforming in H. rewrite forallb_forall in H. exact H.
   - repeat split; vm_compute; reflexivity.
 Qed.
+
+(** the hypotheses of [layout_independent] are satisfiable: the three-tier layout above and the
+    layout that keeps the same events in memory only *)
+Definition ex_L_mem : layout := mk_layout (events ex_L) [].
+Lemma layout_independent_example :
+  Permutation (events ex_L) (events ex_L_mem) /\
+  mixed_provenance w_sch (w_ideal ex_L_mem) ex_L_mem ex_q = false /\
+  leaves_sound w_sch (w_ideal ex_L_mem) ex_L_mem ex_q = true /\
+  length (run_query w_sch (w_ideal ex_L_mem) ex_L_mem ex_q) = 4.
+Proof.
+  split; [|repeat split; vm_compute; reflexivity].
+  assert (E : events ex_L_mem = events ex_L) by (vm_compute; reflexivity).
+  rewrite E. apply Permutation_refl.
+Qed.
